@@ -296,7 +296,8 @@ def make_child(sd: dict):
                                   stage_start=(j == 0), stage_end=(j == len(sd["tasks"]) - 1))
         te.id = "TK%03d-%s" % (j, td["name"])
         tasks.append(te)
-    return StageExecution(ref_id=sd["ref"], type="verif", name=sd["ref"], context=ctx, tasks=tasks)
+    return StageExecution(ref_id=sd["ref"], type="verif", name=sd["ref"], context=ctx, tasks=tasks,
+                          requisite_stage_ref_ids=set(sd["req"]))     # (prerequisites among the siblings: chained children)
 
 
 def register_builder(prog: dict) -> None:
@@ -348,6 +349,13 @@ def synthetic_family() -> list[dict]:
                                  S("p.b1", parent="p", owner="BEFORE"), S("p.a1", parent="p", owner="AFTER")]))
     fam.append(P("beforefail", [S("p"), S("z", ["p"]), S("p.b1", parent="p", owner="BEFORE", tasks=[T("p.b1.1", "terminal")])]))
     fam.append(P("afterfail", [S("p"), S("z", ["p"]), S("p.a1", parent="p", owner="AFTER", tasks=[T("p.a1.1", "terminal")])]))
+    # chained children: the second before-stage waits for the first, the second after-stage for the (failing) first
+    fam.append(P("beforechain", [S("p", tasks=[T("p.1"), T("p.2")]), S("z", ["p"]), S("p.b1", parent="p", owner="BEFORE"),
+                                 S("p.b2", ["p.b1"], parent="p", owner="BEFORE", tasks=[T("p.b2.1"), T("p.b2.2")])]))
+    fam.append(P("afterchain", [S("p"), S("z", ["p"]), S("p.a1", parent="p", owner="AFTER", tasks=[T("p.a1.1", "terminal")]),
+                                S("p.a2", ["p.a1"], parent="p", owner="AFTER")]))
+    fam.append(P("afterchainok", [S("p"), S("z", ["p"]), S("p.a1", parent="p", owner="AFTER"),
+                                  S("p.a2", ["p.a1"], parent="p", owner="AFTER")]))
     # a continue-on-failure parent with two parallel after-stages, the failing one finishes first
     fam.append(P("aftercof2", [S("p", cof=True), S("q", ["p"]), S("p.a1", parent="p", owner="AFTER", tasks=[T("p.a1.1", "terminal")]),
                                S("p.a2", parent="p", owner="AFTER", tasks=[T("p.a2.1", "poll", 1)])]))
